@@ -3,8 +3,9 @@
 # Confirms a seeded change produced in /tmp/wt-<Cxx><suffix>: builds, the pinned suite (244 stable tests) still passes,
 # the demonstration fails with the change and passes without it. On success stores it as /verif/seeded/<Cxx><suffix>/.
 set -u
-ID=$1; SUF=${2:-}
-WT=/tmp/wt-$ID$SUF
+ID=$1; ROUND=${2:-}
+WT=/tmp/wt$ROUND-$ID
+SUF=""; [ -n "$ROUND" ] && SUF="-r$ROUND"
 export GOFLAGS=-mod=mod GOPROXY=off GOSUMDB=off GOTOOLCHAIN=local
 cd "$WT" || exit 3
 PATCH=$WT/MUTANT/patch.diff
